@@ -120,7 +120,7 @@ static void judge_c02(const glue::Files &files, const std::string &main, Result 
   }
   // the token stream after include splicing (a file may be included several times) is the input size
   total_tokens = ref::scan(files, main).toks.size() + 16;
-  size_t bound = 64 + 12 * (total_tokens + 1024 * maxbody);
+  size_t bound = 64 + 64 * (total_tokens + 1024 * maxbody);  // generous: any linear code generator stays below
   if (cr.code.code.size() > bound) {
     r.fail("total:output-not-bounded", "emitted " + std::to_string(cr.code.code.size()) + " instructions for " + std::to_string(total_tokens) +
                                            " tokens (bound " + std::to_string(bound) + ")");
